@@ -290,8 +290,13 @@ int main(int argc, char** argv) {
         if (op->t1 - op->t0 > tmo + slack) timed = false;
         long long size_at = 0;
         for (auto x : all) if (x != op && x->k != 'A' && x->e < op->b) size_at += (long long)x->pushed_cnt + (long long)x->injected.size() - (long long)x->popped.size();
+        // "available" in the ticket sense: a push that overlaps the call may hold an earlier ticket unpublished, in which
+        // case completed later pushes are not yet poppable (the property allows a short count when an op overlaps)
+        bool push_overlaps = false;
+        for (auto x : all)
+          if (x != op && strchr("PpNnXY", x->k) && x->b != 0 && x->b < op->e && (!x->done || x->e > op->b)) push_overlaps = true;
         long long want = std::min<long long>((long long)op->n, size_at);
-        if ((long long)op->cnt < want) avail = false;
+        if (!push_overlaps && (long long)op->cnt < want) avail = false;
       }
     }
     printf("%s ok steps=%llu pre=%llu | %s | excl=%d state=%d publish=%d conserve=%d nodup=%d counts=%d fifo=%d tryjust=%d timed=%d avail=%d left=%zu\n",
